@@ -413,3 +413,56 @@ Example C05_unpatched_jump_keeps_placeholder :
   AsmRules.src_assemble GenAssemble.asm_src [AIns (IJump 5) noloc] = CProgram (mkProg [14; 255; 255]%Z [] [(0%Z, noloc)]) /\
   assemble_items [AIns (IJump 5) noloc] = Some (mkProg [14; 5; 0]%Z [] [(0%Z, noloc)]).
 Proof. vm_compute. repeat split; reflexivity. Qed.
+
+(* ---- over the REGENERATED terms only (BC/SourceBytes.v, continuation of the C01 capstone BC/SourceCorrect.v) ---- *)
+Require X.BC.SourceCorrect X.BC.SourceBytes X.BC.SchemesItems X.gen.GenSchemes X.Sem.NoMachine.
+
+(* the Program that the regenerated emit / makeConstant / placeholder / patchJump / calcBackwardJump / encode assemble, inside
+   the regenerated skeleton of Compile, from the items of the regenerated code-generation schemes: passes the structural
+   verifier, consists of bytes with a pool within the uint16 limit, decodes to those items (up to the key identification of
+   constants; exactly under items_keys_exact), and the jumps of the items land on instruction boundaries *)
+Theorem C05_source_bytes_wf :
+  forall mapenv c e dc, compilable e = true -> (esize e <= dc)%nat ->
+    exists its, X.BC.SchemesItems.gen_items_program X.gen.GenSchemes.schemes dc mapenv c e = Some its /\
+    forall p, AsmRules.src_assemble GenAssemble.asm_src its = CProgram p ->
+      wf_progb p = true /\
+      Forall is_byte (p_bytes p) /\ (Z.of_nat (List.length (p_consts p)) <= max_uint16)%Z /\
+      (exists C', decode p = DOk C' /\ code_sim (items_code its) C') /\
+      (items_keys_exact its = true -> decode p = DOk (items_code its)) /\
+      jumps_ok (items_code its) = true.
+Proof. exact X.BC.SourceBytes.source_bytes_wf. Qed.
+Print Assumptions C05_source_bytes_wf.
+
+(* stack balance at source level: the decoded Program, run by the dispatch loop regenerated from vm/vm.go on a machine in ANY
+   state, returns the result of the language definition and - when that is a value - leaves the machine at the end of the
+   code with an EMPTY stack and NO open scope (run_guard: the executable side condition of the VM bridge) *)
+Theorem C05_source_bytes_run_balanced :
+  forall fe cfg env c e dc before,
+    X.Sem.NoMachine.fn_no_machine fe -> compilable e = true -> (esize e <= dc)%nat ->
+    exists its, X.BC.SchemesItems.gen_items_program X.gen.GenSchemes.schemes dc (c_mapenv cfg) c e = Some its /\
+    forall p, AsmRules.src_assemble GenAssemble.asm_src its = CProgram p -> items_keys_exact its = true ->
+    exists C, decode p = DOk C /\
+    exists d0, forall d, (d0 <= d)%nat ->
+      VMSteps.run_guard fe cfg env C d init_state = true ->
+      exists r last, X.BC.SourceCorrect.interp_run_state fe cfg env C GenVMSteps.vm_src d before = Some (r, last) /\
+        VMSteps.erase_stop_mem r = VMSteps.erase_stop_mem (run_ref fe cfg env c e) /\
+        (forall v s, r = Done v s -> last = mkSt (csize C) [] [] s).
+Proof. exact X.BC.SourceBytes.source_bytes_run_balanced. Qed.
+Print Assumptions C05_source_bytes_run_balanced.
+
+(* filter(map([1, 2, 3], {# + 1}), {# > 2 ? true : false}) through the whole source-level chain, from a dirty machine *)
+Example C05_source_bytes_nonvacuous :
+  match X.BC.SourceCorrect.cap_items with
+  | Some its =>
+      match AsmRules.src_assemble GenAssemble.asm_src its with
+      | CProgram p =>
+          wf_progb p = true /\ decode p = DOk (items_code its) /\ jumps_ok (items_code its) = true /\
+          forallb (fun b => (0 <=? b)%Z && (b <? 256)%Z) (p_bytes p) = true /\
+          X.BC.SourceCorrect.interp_run_state BrVMSteps.w_fe BrVMSteps.w_cfg VNil (items_code its) GenVMSteps.vm_src 9
+            X.BC.SourceCorrect.cap_dirty
+          = Some (Done (VArr TIface [vint 3; vint 4]) (mkRS 8 []), mkSt (csize (items_code its)) [] [] (mkRS 8 []))
+      | _ => False
+      end
+  | None => False
+  end.
+Proof. exact X.BC.SourceBytes.source_bytes_wf_nonvacuous. Qed.
